@@ -122,7 +122,7 @@ theorem run_TB (B D : Int) (p : Prog) : ∀ (s : TS), NoCatch p → Flat p → S
     · rw [f1]; exact hbody.bound
     · rw [f1]; have := hbody.mono; simpa [enter] using this
     · rw [f2]; exact hbody.noCancel
-  | group ms body _ => intro s _ hf; exact absurd hf id
+  | group anyp ms body _ => intro s _ hf; exact absurd hf id
 
 /-- **A block never runs past its deadline, and expiry is reported exactly at it.**  For an
 outermost timeout block (any of the four forms) entered at `t0` with deadline `d`, around any
